@@ -137,6 +137,14 @@ Section Wrap2.
     Permutation (left_tagged items (fst x)) (accepted_tagged items c ls (snd x)).
   Proof. destruct OK as (A & B & C & D & _). intros V. apply accounting_g; auto. apply validate_max_valid; exact V. Qed.
 
+
+  Lemma isolation_unique_l t0 ls s o x md p :
+    let r := bp_run count split c t0 ls in
+    NoDup (map snd (accepted_tagged items c ls (snd r))) ->
+    In s (fst r) -> In o (s_out s) -> In x (items (snd o)) ->
+    In (md, p) (accepted ls (snd r)) -> In x (items p) -> md_values c md = s_md s.
+  Proof. destruct OK as (A & B & C & D & _). apply isolation_unique_g; auto. Qed.
+
   Lemma groups_distinct_l t0 ls : NoDup (map (@s_md R) (fst (bp_run count split c t0 ls))).
   Proof. destruct OK as (A & B & C & D & _). apply groups_distinct_g with (items := items); auto. Qed.
 
